@@ -286,6 +286,37 @@ def delitem(I, st, obj, idx, node):
             return out
         if isinstance(h, HObj):
             return I.call_method(st, obj, "__delitem__", [idx], {}, node)
+        if isinstance(h, HList):
+            # del lst[i] (documented: removes item i, IndexError when out of range)
+            st.trace.append(Event("write", f"{h.tag}.__delitem__", [obj, idx], lineno=lineno(node), held=I.held_locks(st)))
+            used(f"{h.tag}.__delitem__")
+            if h.concrete:
+                if isinstance(idx, int):
+                    try:
+                        del h.items[idx]
+                    except IndexError:
+                        return raise_(st, IndexError, "list assignment index out of range", node=node)
+                    return [(st, None)]
+                raise Unsupported("symbolic index delete on concrete list", node)
+            ok, ni = norm_index(h.n, idx)
+            out = []
+            for s, b in I.fork_bool(st, ok):
+                if not b:
+                    out += raise_(s, IndexError, "list assignment index out of range", node=node)
+                    continue
+                hh = s.get(obj)
+                na = fresh_arr("del", hh.k)
+                j = z3.Int(fresh_name("j"))
+                s.assume(z3.ForAll([j], z3.Implies(z3.And(0 <= j, j < ni), elem_eq(na, j, hh.arr, j, hh.k))))
+                s.assume(z3.ForAll([j], z3.Implies(z3.And(ni <= j, j < hh.n - 1), elem_eq(na, j, hh.arr, j + 1, hh.k))))
+                hh.arr, hh.n = na, hh.n - 1
+                out.append((s, None))
+            return out
+    sp = I.specs.get("delitem_obj")
+    if sp is not None:
+        r = sp(I, st, [obj, idx], {}, node)
+        if r is not None:
+            return r
     raise Unsupported(f"item delete on {obj!r}", node)
 
 
@@ -608,6 +639,9 @@ def dict_method(I, st, ref, h, name, args, kwargs, node):
 
 def cdict_method(I, st, ref, h, name, args, kwargs, node):
     d = h.items
+    if name == "get" and args and isinstance(args[0], Sym) and args[0].k == "str" and all(isinstance(k, str) for k in d):
+        # d.get(<symbolic str>[, default]) on a dict with string keys: exhaustive case split over the keys
+        return finite_lookup(I, st, d, args[0], node, args[1] if len(args) > 1 else None, True)
     if name in ("get", "pop", "setdefault", "__contains__", "__getitem__") and not deep_host(args[0]):
         raise Unsupported(f"dict.{name} with symbolic key on concrete dict", node)
     if name == "get":
@@ -661,7 +695,13 @@ def set_method(I, st, ref, h, name, args, kwargs, node):
             if r is False:
                 h.items.append(args[0])
                 return [(st, None)]
-            raise Unsupported("set.add with undecided membership", node)
+            # membership depends on symbolic equality: case split
+            out = []
+            for s2, b in I.fork_bool(st, to_term(r, "bool")):
+                if not b:
+                    s2.get(ref).items.append(args[0])
+                out.append((s2, None))
+            return out
         if name == "update":
             for x in I.iter_concrete(st, args[0], node):
                 set_method(I, st, ref, h, "add", [x], {}, node)
@@ -730,6 +770,19 @@ def str_method(I, st, recv, name, args, kwargs, node):
             return [(st, getattr(recv, name)(*args, **kwargs))]
         except Exception as ex:
             return raise_(st, type(ex), *ex.args, node=node)
+    if name == "join" and is_host(recv) and len(args) == 1:
+        # sep.join(<sequence of known length with symbolic string elements>)
+        try:
+            items = I.iter_concrete(st, args[0], node)
+        except Unsupported:
+            items = None
+        if items is not None and all(kind_of(x) == "str" for x in items):
+            pieces = []
+            for i, x in enumerate(items):
+                if i:
+                    pieces.append(recv)
+                pieces.append(x)
+            return [(st, I.concat_strs(pieces) if pieces else "")]
     used(f"str.{name}")
     s = to_term(recv, "str")
     tags = getattr(recv, "tags", frozenset())
@@ -924,6 +977,14 @@ def builtin_str(I, st, args, kwargs, node):
         raise Unsupported("str() of heap value", node)
     if is_host(a) and deep_host(a):
         return [(st, str(a))]
+    if isinstance(a, Exc):
+        # str(exception): some string (contract-supplied spec "str_exc" may refine it)
+        sp = I.specs.get("str_exc")
+        if sp is not None:
+            r = sp(I, st, [a], {}, node)
+            if r is not None:
+                return r
+        return [(st, fresh("str_exc", "str"))]
     raise Unsupported("str() of symbolic composite", node)
 
 
